@@ -354,7 +354,9 @@ MANIFEST_TEXT = {
                 "where none of them can occur - fully annotated programs without definition groups - progress IS a theorem of the "
                 "models: whatever the checker model accepts without a diagnostic evaluates, for every fuel, to a value of the "
                 "reported type or to a term stuck on a division by zero (accepted_programs_are_safe = soundness of the checker model + "
-                "progress and preservation of the typing rules, from confluence of the repaired definitional equality).",
+                "progress and preservation of the typing rules, from confluence of the repaired definitional equality). For `a definition that is "
+                "not yet available`: an executable corrected definition-order check after which no run stops on an unsubstituted group "
+                "variable (order_ok_lazy_evaluate); the modelled guard accepts the D7 witnesses that the corrected check rejects.",
         "design_ref": "DESIGN.md section 4, C01; section 5",
         "note": "Trusted: Coq kernel, extraction, OCaml driver, harness. Known findings are matched by signature (reason + binder of the stuck variable / hook H1).",
         "technique": "Coq proof of progress for what the checker model accepts on hole-free group-free programs (soundness of the checker model + progress/preservation from confluence) + translation validation on the implementation: run + proved stuck-term classifier, type-directed program generation",
@@ -399,8 +401,10 @@ MANIFEST_TEXT = {
                 "(parser_reassociate_spec, parser_tree_wf, reassoc_left / reassoc_paren); and the tree carries exactly the tokens: its in-order "
                 "content (identifiers incl. binder names, literals, constants, operators, keywords, arrows, colons, braces, terminators - "
                 "all but parentheses) equals the token list's, before and after re-association (parsed_tree_content, "
-                "parser_output_content). Not theorems: uniqueness of derivations and that the raw tree is the derivation tree (explored: Earley "
-                "recogniser, independent chain reader).",
+                "parser_output_content). The grammar is unambiguous (grammar_unambiguous: two derivation trees with the same root and yield are "
+                "equal) and the tree the parser model builds is the image of THE derivation tree, re-associated (parser_builds_derivation): "
+                "the whole property is a theorem of the model; the model is tied to parser.rs by the regenerated skeleton / grammar and by "
+                "correspondence (also against an Earley recogniser and an independent chain reader).",
         "design_ref": "DESIGN.md section 4, C07",
         "note": "Trusted: Coq kernel, the skeleton/grammar translator, extraction, OCaml driver + Earley oracle, harness.",
         "technique": "Coq proof that the parser model accepts only sentences of the generated grammar + generated skeleton-vs-grammar obligations (vm_compute) + extracted packrat model differential testing + Earley completeness oracle",
@@ -437,7 +441,8 @@ MANIFEST_TEXT = {
                 "parse() output (checker_lookup_in_bounds) and, under the store-scoping invariant, neither do the normaliser's and the "
                 "unifier's context lookups (unifyB_lookup_in_bounds, whnfB_lookup_in_bounds) - but type_check_rec does not maintain that "
                 "invariant: recorded finding D19, a panic in normalize_weak_head on a well-formed program, found by the proof attempt and "
-                "reproduced inside Coq (C14_lookup_out_of_bounds_D19).",
+                "reproduced inside Coq (C14_lookup_out_of_bounds_D19). Conversely, for every program accepted by parse(), whenever hooks H1 / H3 are "
+                "silent the whole checker run performs no out-of-range context lookup (checker_lookups_in_bounds).",
         "design_ref": "DESIGN.md section 4, C14",
         "note": "Stack exhaustion by syntactic depth beyond the explored sizes is outside the model (named limit D16).",
         "technique": "Coq proofs on the tokenizer/parser models (no panic, non-empty errors) + exhaustive short-input and random robustness runs under process isolation",
@@ -462,8 +467,11 @@ MANIFEST_TEXT = {
                 "partition regenerated from term.rs) must print the same token kinds as the implementation. Proved of the printer model: for every term without D12 "
                 "and without negative literals (the parser produces none) the printed tokens are a sentence of the grammar regenerated "
                 "from grammar.y, each printing position at the nonterminal the printer intends (print_is_sentence); the exclusions are "
-                "exact on 10395 small terms covering every printing position, non-sentences refuted by a verified recogniser. Partial: "
-                "that the sentence reads back as the SAME term needs parser completeness and is decided on the implementation; one "
+                "exact on 10395 small terms covering every printing position, non-sentences refuted by a verified recogniser; and the round "
+                "trip at the level of structure: every token list with the printed kinds is accepted and, after re-association, has "
+                "exactly the term's skeleton - operators, operands, grouping, implicitness, definitions, literals "
+                "(print_reads_back_same_structure, by parser completeness + unambiguity + parser_builds_derivation). Names / indices are "
+                "outside the kind-level model and are compared on the implementation; one "
                 "genuine violation is a recorded finding (D12, pinned by a test in the repository).",
         "design_ref": "DESIGN.md section 4, C16; section 5 D12, D13",
         "note": "A failure is attributed to D12 only if the term contains an implicit function type with unused variable and the implementation printed exactly what the model prints.",
@@ -493,7 +501,9 @@ MANIFEST_TEXT = {
                 "Perturbation streams aim at every unify side condition of the checker. Proved of the checker MODEL (Model B, compared with "
                 "type_check case by case): on every hole-free program, acceptance without a diagnostic implies the elaborated term is the "
                 "program and is well typed at a type definitionally equal to the reported one (tcB_sound_hole_free, a simulation up to "
-                "zonking). With holes two genuine violation classes are recorded findings (D9, D19), both reproduced inside Coq.",
+                "zonking). With holes: for every run during which neither instrumented event occurs (hooks H1 / H3 silent) acceptance without "
+                "a diagnostic implies the completed program is well typed at the reported type, provided the user's holes hold types "
+                "(tcN_sound_closed; tcN_refines); the two recorded findings D9 and D19 are exactly those events, both reproduced inside Coq.",
         "design_ref": "DESIGN.md section 3.3 and section 4, C03",
         "note": "Per-instance certificates plus a soundness theorem for the checker model on hole-free programs; not a theorem about type_checker.rs. Failures in programs where hook H1 / H3 fired are attributed to D9 / D19.",
         "technique": "Coq proof of soundness of the checker model on all hole-free programs (simulation up to zonking) + translation validation of the implementation with a Coq-verified type checker (infer_sound) on accepted and perturbed generated programs",
@@ -520,7 +530,9 @@ MANIFEST_TEXT = {
                 "verified checker accepts, its type is the verified one with reductions done, and it answers for every large enough "
                 "fuel whenever each applied function type's codomain has a weak-head normal form (tcB_no_false_rejection_spine, "
                 "tcB_complete_hole_free_spine; without that requirement completeness is refuted inside Coq by a program on which the "
-                "model diverges); elaboration identity for every input (tcB_elab_identity).",
+                "model diverges), and the same with definitionally equal types for single-definition groups nested anywhere "
+                "(tcB_complete_hole_free; checkers_incomparable: the checkers differ only by non-termination); elaboration identity for every "
+                "input (tcB_elab_identity).",
         "design_ref": "DESIGN.md section 4, C05",
         "note": "As C03; completeness of type_checker.rs itself is decided per certified instance; the theorems are about Model B.",
         "technique": "Coq proofs of completeness of the checker model against the verified checker (spine programs) and of elaboration identity + certified generation (Coq-verified checker) + acceptance check + structural elaboration-identity comparison on the implementation",
@@ -587,7 +599,10 @@ MANIFEST_TEXT = {
                 "checked as metamorphic relations on the implementation itself for generated programs at random applicable sites "
                 "(acceptance and value). Proved for the verified checker and the evaluator model: the four wrappers - if-true, annotated "
                 "identity, unused definition, naming by a definition - at the root or in head position, chained and undone in any order, "
-                "change neither the set of accepted types nor the outcome (value, stuck reason, divergence): rw_sound. "
+                "change neither the set of accepted types nor the outcome (value, stuck reason, divergence): rw_sound; any permutation of "
+                "adjacent function definitions of a group, anywhere in the program, preserves the outcome (permute_value_definitions_outcome), "
+                "and exchanging definitions preserves typability and acceptance by the verified checker (swap_defs_typable_iff, "
+                "infer_swap_defs_accepts). "
                 "Genuine violations are recorded findings (D15; D7 and D9 through reordering).",
         "design_ref": "DESIGN.md section 4, C19",
         "note": "Partial proof: acceptance-side invariance of parentheses, reordering and of the implementation's own checker is decided by the stream.",
